@@ -130,3 +130,11 @@ package wire
 //@   trusted
 //@   modifies nothing
 //@   ensures result == eqsym(wmap, left, right)
+
+// string -> []byte through unsafe: the bytes of the string (trusted: unsafe code).
+//@ contract unsafeStringToBytes
+//@   trusted
+//@   modifies nothing
+//@   ensures len(result) == len(s) && forall(k, 0, len(s), result[k] == s[k])
+//@ contract NewValueString
+//@   inline
